@@ -4,6 +4,10 @@ package main
 //
 // op:  acc <via hs|conn> <table> <magic> <dm> <ps> <q> <proposed> <version> <datahex>
 //
+//      qr  <via hs|conn> <table> <magic> <dm> <ps> <q> <proposed> <n> v1 hex1 … vn hexn
+//        same initiator, answered `QueryReply {v1: hex1, …}` (solicited only if the initiator
+//        proposed the query flag)
+//
 // The real initiator (handshake.Client on a muxer for via=hs, the whole
 // ouroboros.NewConnection for via=conn) proposes the table's generated entries
 // and a scripted responder on the other end of a net.Pipe answers with the raw
@@ -23,7 +27,7 @@ import (
 )
 
 func init() {
-	register(&Prop{ID: "C19", Gen: genC19, Run: runC19, Timeout: 20 * time.Second})
+	register(&Prop{ID: "C19", Gen: genC19, Run: runC19, Timeout: 150 * time.Second})
 }
 
 // ---- CBOR shapes for version data (shared with C20's malformed stream) ----
@@ -69,8 +73,44 @@ func g2CborHead(mt byte, n uint64, width int) []byte {
 
 func g2Width(r *Rand) int { return Pick(r, 0, 0, 0, 1, 2, 4, 8) }
 
+var g2TagNumbers = []uint64{0, 1, 2, 3, 4, 5, 6, 23, 24, 30, 32, 36, 102, 121, 122, 127, 258, 259, 1280, 55799, 65536, 1 << 32}
+
+// g2Tagged wraps an item in a CBOR tag (any number, any head width); for tag 2 it may instead
+// produce a proper bignum (byte string content, possibly with leading zeros / too long).
+func g2Tagged(r *Rand, item []byte, magic uint64) []byte {
+	tag := g2TagNumbers[r.Intn(len(g2TagNumbers))]
+	if r.Chance(1, 3) {
+		tag = Pick(r, uint64(2), 2, 1, 24, 30)
+	}
+	head := g2CborHead(6, tag, g2Width(r))
+	if tag == 2 && r.Chance(3, 4) {
+		v := Pick(r, magic, magic, 0, 1, 2, 1<<32-1, 1<<32, ^uint64(0))
+		bs := []byte{}
+		for v > 0 {
+			bs = append([]byte{byte(v)}, bs...)
+			v >>= 8
+		}
+		for z := r.Intn(3); z > 0; z-- { // leading zeros
+			bs = append([]byte{0}, bs...)
+		}
+		if r.Chance(1, 10) { // more than 64 bits
+			bs = append([]byte{1}, append(make([]byte, 8), bs...)...)
+		}
+		return append(append(head, g2CborHead(2, uint64(len(bs)), Pick(r, 0, 0, 1))...), bs...)
+	}
+	return append(head, item...)
+}
+
 // g2GenItem: one non-container item; kind hint 'u' (uint around magic), 'b' (bool), 'p' (small uint), '?' anything
 func g2GenItem(r *Rand, hint byte, magic uint64) []byte {
+	it := g2GenItem0(r, hint, magic)
+	for d := 0; d < 3 && r.Chance(1, 7); d++ {
+		it = g2Tagged(r, it, magic)
+	}
+	return it
+}
+
+func g2GenItem0(r *Rand, hint byte, magic uint64) []byte {
 	if r.Chance(1, 6) {
 		hint = '?'
 	}
@@ -135,10 +175,16 @@ func g2GenData(r *Rand, magic uint64) []byte {
 	for i := 0; i < len(hints); i++ {
 		body = append(body, g2GenItem(r, hints[i], magic)...)
 	}
+	var arr []byte
 	if r.Chance(1, 6) { // indefinite
-		return append(append([]byte{0x9f}, body...), 0xff)
+		arr = append(append([]byte{0x9f}, body...), 0xff)
+	} else {
+		arr = append(g2CborHead(4, uint64(len(hints)), g2Width(r)), body...)
 	}
-	return append(g2CborHead(4, uint64(len(hints)), g2Width(r)), body...)
+	for d := 0; d < 2 && r.Chance(1, 8); d++ { // tags in front of the array
+		arr = append(g2CborHead(6, g2TagNumbers[r.Intn(len(g2TagNumbers))], g2Width(r)), arr...)
+	}
+	return arr
 }
 
 var g2Tables = []string{"ntc", "ntn", "dmq", "dmqn"}
@@ -189,6 +235,10 @@ func g2RandomSubset(r *Rand, all []uint16) []uint16 {
 
 func genC19(r *Rand, n int, tier string, emit func(string)) {
 	for i := 0; i < n; i++ {
+		if r.Chance(1, 12) {
+			emit(genC19QueryReply(r))
+			continue
+		}
 		via := "hs"
 		if r.Chance(1, 4) {
 			via = "conn"
@@ -260,17 +310,76 @@ func genC19(r *Rand, n int, tier string, emit func(string)) {
 	}
 }
 
+// a QueryReply for an initiator that may or may not have asked for one
+func genC19QueryReply(r *Rand) string {
+	via := Pick(r, "hs", "hs", "conn")
+	table := g2Tables[r.Intn(4)]
+	if via == "conn" && table == "dmqn" {
+		table = "dmq"
+	}
+	magic := Pick(r, uint64(764824073), 1, 42)
+	q := r.Chance(1, 3)
+	all := g2TableVersions(table)
+	proposed := "all"
+	if via == "hs" && r.Bool() {
+		proposed = g2VersionsStr(g2RandomSubset(r, all))
+	}
+	k := r.Intn(4)
+	seen := map[uint16]bool{}
+	parts := []string{}
+	for j := 0; j < k; j++ {
+		v := all[r.Intn(len(all))]
+		if r.Chance(1, 4) {
+			v = uint16(r.U64())
+		}
+		if seen[v] {
+			continue
+		}
+		seen[v] = true
+		parts = append(parts, fmt.Sprintf("%d %s", v, hex.EncodeToString(g2GenData(r, magic))))
+	}
+	return strings.TrimSpace(fmt.Sprintf("qr %s %s %d %s %s %s %s %d %s", via, table, magic, b01(r.Bool()), b01(r.Bool()), b01(q), proposed, len(parts), strings.Join(parts, " ")))
+}
+
 func runC19(op string) string {
 	f := strings.Fields(op)
-	if len(f) != 10 || f[0] != "acc" {
+	if len(f) < 9 || (f[0] != "acc" && f[0] != "qr") {
 		return "bad-op"
 	}
 	via, table := f[1], f[2]
 	magic, e1 := strconv.ParseUint(f[3], 10, 32)
-	ver, e2 := strconv.ParseUint(f[8], 10, 16)
-	data, e3 := hex.DecodeString(f[9])
-	if e1 != nil || e2 != nil || e3 != nil || len(data) == 0 {
+	if e1 != nil {
 		return "bad-op"
+	}
+	var payload []byte
+	if f[0] == "acc" {
+		if len(f) != 10 {
+			return "bad-op"
+		}
+		ver, e2 := strconv.ParseUint(f[8], 10, 16)
+		data, e3 := hex.DecodeString(f[9])
+		if e2 != nil || e3 != nil || len(data) == 0 {
+			return "bad-op"
+		}
+		// MsgAcceptVersion = [1, version, versionData]
+		payload = append([]byte{0x83, 0x01}, g2CborHead(0, ver, 0)...)
+		payload = append(payload, data...)
+	} else {
+		n, e2 := strconv.Atoi(f[8])
+		if e2 != nil || len(f) != 9+2*n {
+			return "bad-op"
+		}
+		// MsgQueryReply = [3, {v: data}]
+		payload = append([]byte{0x82, 0x03}, g2CborHead(5, uint64(n), 0)...)
+		for i := 0; i < n; i++ {
+			v, e3 := strconv.ParseUint(f[9+2*i], 10, 16)
+			d, e4 := hex.DecodeString(f[10+2*i])
+			if e3 != nil || e4 != nil || len(d) == 0 {
+				return "bad-op"
+			}
+			payload = append(payload, g2CborHead(0, v, 0)...)
+			payload = append(payload, d...)
+		}
 	}
 	dm, ps, q := f[4] == "1", f[5] == "1", f[6] == "1"
 	full, mode, ok := g2Table(table, uint32(magic), dm, ps, q)
@@ -285,10 +394,6 @@ func runC19(op string) string {
 	if !ok {
 		return "bad-op"
 	}
-	// MsgAcceptVersion = [1, version, versionData]
-	payload := append([]byte{0x83, 0x01}, g2CborHead(0, ver, 0)...)
-	payload = append(payload, data...)
-
 	a, b := net.Pipe()
 	defer a.Close()
 	defer b.Close()
@@ -302,7 +407,7 @@ func runC19(op string) string {
 	}()
 	switch via {
 	case "hs":
-		res, stop := g2RunHandshake(a, false, mode, vm, 5*time.Second)
+		res, stop := g2RunHandshake(a, false, mode, vm)
 		stop()
 		return res.String()
 	case "conn":
@@ -323,6 +428,9 @@ func runC19(op string) string {
 		}
 		v, vd := conn.ProtocolVersion()
 		out := fmt.Sprintf("finished v=%d %s", v, g2RenderVD(vd))
+		if qm := conn.QueryReplyVersionMap(); qm != nil {
+			out += " query=" + g2RenderMap(qm)
+		}
 		go func() { _ = conn.Close() }()
 		return out
 	}
